@@ -362,3 +362,23 @@ Proof.
     destruct (add_untagged1_run l r (rest ++ k) st st' Hl Hr1 H) as [H1 H2].
     apply IH; auto.
 Qed.
+
+(* ------------------------------------------------------------------------
+   _compare announces every flag change that was not silenced *)
+Lemma compare_reports_flags cached before after hide silenced recent with_uid u f :
+  In (u, f) (fz_flags after) -> uf_mem (u, f) (fz_flags before) = false ->
+  uf_mem (u, f) silenced = false ->
+  exists r, In r (compare cached before after hide silenced recent with_uid)
+            /\ (r = Bug \/ exists n fl sh, r = Fetch n u fl sh).
+Proof.
+  intros Hin Hb Hs. unfold compare.
+  set (new_flags := filter (fun kf => negb (uf_mem kf (fz_flags before)) && negb (uf_mem kf silenced))
+                           (fz_flags after)).
+  assert (Hu : In u (nsort (ndiff (fz_recent after) (fz_recent before) ++ map fst new_flags))).
+  { apply nsort_In, in_or_app. right. apply in_map_iff. exists (u, f). split; auto.
+    apply filter_In. split; auto. rewrite Hb, Hs. reflexivity. }
+  eexists. split.
+  - apply in_or_app. right. apply in_or_app. right. apply in_map_iff. exists u. split; [reflexivity|exact Hu].
+  - destruct (aget u (fz_seqs after)); [destruct (cached u)|]; eauto 6.
+Qed.
+
